@@ -787,6 +787,8 @@ type ExtPlainClaims struct {
 	Ratio    *float64   `cbor:"-75700,keyasint,omitempty" json:"ratio,omitempty"`
 	Flag     *bool      `cbor:"-75701,keyasint,omitempty" json:"flag,omitempty"`
 	Big      *uint64    `cbor:"-75702,keyasint,omitempty" json:"big,omitempty"`
+	// a claim nested eight containers deep (the claims map and seven arrays)
+	Deep [][][][][][][]int64 `cbor:"-75703,keyasint,omitempty" json:"deep,omitempty"`
 }
 
 const ExtPlainName = "http://example.com/psa/plain-type"
@@ -917,3 +919,25 @@ func (o *OuterP1Claims) UnmarshalCBOR(d []byte) error {
 }
 func (o OuterP1Claims) MarshalJSON() ([]byte, error)  { return encoding.SerializeStructToJSON(&o) }
 func (o *OuterP1Claims) UnmarshalJSON(d []byte) error { return encoding.PopulateStructFromJSON(d, o) }
+
+// ---- a derived claims type that embeds a struct whose TYPE name is not exported (its fields are) next to the base ----
+
+type lowerVendorClaims struct {
+	Lower *int64 `cbor:"-75900,keyasint,omitempty" json:"lower,omitempty"`
+}
+
+type ExtLowerEmbedClaims struct {
+	psatoken.P2Claims
+	lowerVendorClaims
+}
+
+func (o ExtLowerEmbedClaims) MarshalCBOR() ([]byte, error) {
+	return encoding.SerializeStructToCBOR(extEM, &o)
+}
+func (o *ExtLowerEmbedClaims) UnmarshalCBOR(d []byte) error {
+	return encoding.PopulateStructFromCBOR(extDM, d, o)
+}
+func (o ExtLowerEmbedClaims) MarshalJSON() ([]byte, error) { return encoding.SerializeStructToJSON(&o) }
+func (o *ExtLowerEmbedClaims) UnmarshalJSON(d []byte) error {
+	return encoding.PopulateStructFromJSON(d, o)
+}
